@@ -24,6 +24,11 @@
 // child process that serves everything serially (scenario expect).  A child that dies (Go's `fatal error: concurrent map
 // writes`, a panic, any exit code other than the race detector's) is a failing input of its own (crash:...).
 //
+// client.go: the kinds of client (what the caller's ExtraRequestHeaders callback returns), the request as it arrives ON THE
+// WIRE as part of every client observation, scenario history-client (serial histories on one client against a brand-new
+// client per request).  trhist.go: scenario history-typeref (histories on the custom typeref registry, every step under a
+// deadline; a step that does not finish is a failing input hang:...).
+//
 // The model side (coq/Corr/C17Corr.v) only checks the static table `sharedCells` below against Conc/Footprint.v; THE TIE
 // BETWEEN THE MODEL AND THE CODE IS THE RACE DETECTOR.
 package main
@@ -117,6 +122,11 @@ type mismatch struct {
 	Want     string `json:"want"`
 	Got      string `json:"got"`
 	Request  string `json:"request,omitempty"` // bursts: round, phase, goroutine and the request that got the answer
+	Class    string `json:"class,omitempty"`   // client requests: what about the client's configuration surface differs (client.go clientConfigClass)
+}
+
+func newMismatch(scenario, what, name, want, got, request string) mismatch {
+	return mismatch{Scenario: scenario, What: what, Name: name, Want: clip(want), Got: clip(got), Request: request, Class: clientConfigClass(want, got)}
 }
 
 type childOut struct {
@@ -127,17 +137,18 @@ type childOut struct {
 	Samples    []string          `json:"samples"`
 	Statuses   map[string]string `json:"statuses,omitempty"` // serial result (status / outcome) per request template or client operation
 	Expect     map[string]string `json:"expect,omitempty"`   // scenario expect: the full serial answer per template / operation
+	Hangs      []hang            `json:"hangs,omitempty"`    // history scenarios: a step that did not finish within its deadline
 }
 
 func (o *childOut) mismatch(scenario, what, name, want, got string) {
 	if len(o.Mismatches) < 40 {
-		o.Mismatches = append(o.Mismatches, mismatch{Scenario: scenario, What: what, Name: name, Want: clip(want), Got: clip(got)})
+		o.Mismatches = append(o.Mismatches, newMismatch(scenario, what, name, want, got, ""))
 	}
 }
 
 func clip(s string) string {
-	if len(s) > 600 {
-		return s[:600] + "..."
+	if len(s) > 1600 {
+		return s[:1600] + "..."
 	}
 	return s
 }
@@ -506,6 +517,10 @@ func serialClient(get func() map[string]*clientFns, out *childOut, tag string) m
 				}
 				obs[k] = canon(e, id)
 			}
+			if hasConfigMarker(obs[0]) { // even alone on its client the request touched what belongs to the caller
+				out.mismatch(tag, "client-config", bk+":"+op, "<the caller's header set and the built request untouched>", obs[0])
+				obs[0], obs[1] = stripConfigMarkers(obs[0]), stripConfigMarkers(obs[1])
+			}
 			if obs[0] != obs[1] {
 				out.mismatch(tag, "serial-run-not-deterministic", bk+":"+op, obs[0], obs[1])
 				continue
@@ -518,6 +533,10 @@ func serialClient(get func() map[string]*clientFns, out *childOut, tag string) m
 		for _, op := range opsFor[kind] {
 			a := canon(call(op, idSerialA), idSerialA)
 			b := canon(call(op, idSerialB), idSerialB)
+			if hasConfigMarker(a) {
+				out.mismatch(tag, "client-config", kind+":"+op, "<the caller's header set untouched>", a)
+				a, b = stripConfigMarkers(a), stripConfigMarkers(b)
+			}
 			if a != b {
 				out.mismatch(tag, "serial-run-not-deterministic", kind+":"+op, a, b)
 				continue
@@ -545,8 +564,8 @@ func runClient(cc childCfg, mod srvModule, dm d2Module) childOut {
 	expect := serialClient(func() map[string]*clientFns { return clients }, &out, "client:"+mod.name)
 	for k, want := range loadExpect(cc.Expect) {
 		if got, ok := expect[strings.TrimPrefix(k, "client:")]; ok && strings.HasPrefix(k, "client:") && got != want {
-			out.Mismatches = append(out.Mismatches, mismatch{Scenario: "client:" + mod.name, What: "client-config", Name: k[len("client:"):], Want: clip(want), Got: clip(got),
-				Request: "the serial phase of the client scenario: every operation in turn, twice, on ONE client per kind, compared with a brand-new client per request"})
+			out.Mismatches = append(out.Mismatches, newMismatch("client:"+mod.name, "client-config", k[len("client:"):], want, got,
+				"the serial phase of the client scenario: every operation in turn, twice, on ONE client per kind, compared with a brand-new client per request"))
 		}
 	}
 	if s := inst.shared(); s != before {
@@ -919,6 +938,14 @@ func childMain(raw string) {
 		out = runBurstD2(cc, d2s[cc.Module])
 	case "expect":
 		out = runExpect(cc, mods[cc.Module], d2s[cc.Module])
+	case "history-client":
+		out = runHistoryClient(cc, mods[cc.Module], d2s[cc.Module])
+	case "history-typeref":
+		out = runHistoryTyperef(cc, func(o childOut) { // a step hangs: report and leave (its goroutine cannot be cancelled)
+			b, _ := json.Marshal(o)
+			os.Stdout.Write(b)
+			os.Exit(0)
+		})
 	default:
 		fmt.Fprintln(os.Stderr, "unknown scenario", cc.Scenario)
 		os.Exit(3)
@@ -1228,6 +1255,16 @@ func main() {
 	scenarios := []sc{{"server", "v2"}, {"server", "root"}, {"client", "v2"}, {"client", "root"}, {"d2", "v2"}, {"d2", "root"}, {"typeref", "v2"}}
 	bursts := []sc{{"burst-server", "v2"}, {"burst-server", "root"}, {"burst-client", "v2"}, {"burst-client", "root"}, {"burst-d2", "v2"}, {"burst-d2", "root"}}
 	isBurst := func(scenario string) bool { return strings.HasPrefix(scenario, "burst-") }
+	// serial HISTORIES with their own oracles: on one client (client.go), on the custom typeref registry with per-step deadlines (trhist.go)
+	histories := []sc{{"history-client", "v2"}, {"history-client", "root"}, {"history-typeref", "v2"}}
+	histRounds, histProcs := 16, []int{2, 8}
+	if cfg.Thorough() {
+		histRounds, histProcs = 80, []int{1, 2, 4, 8, 16}
+	}
+	// the scenarios that compare with the answers of the serial child process (scenario expect)
+	needsExpect := func(scenario string) bool {
+		return scenario == "burst-server" || scenario == "burst-client" || scenario == "history-client" || scenario == "client"
+	}
 	var plans []plan
 	if cfg.Replay != "" {
 		// a replay file names the run that failed; it is re-run 5 times under the same configuration
@@ -1275,6 +1312,13 @@ func main() {
 				}
 			}
 		}
+		for _, s := range histories {
+			for _, p := range histProcs {
+				seed++
+				c := childCfg{Scenario: s.scenario, Module: s.module, Goroutines: burstG, Procs: p, Seed: seed, Rounds: histRounds, Per: histRounds * 4}
+				plans = append(plans, plan{c, 0})
+			}
+		}
 	}
 
 	// the answers the bursts are compared with: one SERIAL child process per module; handed to the burst children as a file
@@ -1288,7 +1332,7 @@ func main() {
 	var expectMods []string
 	for _, m := range []string{"v2", "root"} {
 		for _, pl := range plans {
-			if pl.cfg.Module == m && isBurst(pl.cfg.Scenario) && pl.cfg.Scenario != "burst-d2" {
+			if pl.cfg.Module == m && needsExpect(pl.cfg.Scenario) {
 				expectMods = append(expectMods, m)
 				break
 			}
@@ -1316,10 +1360,10 @@ func main() {
 	}
 	runnable := plans[:0:0]
 	for _, pl := range plans {
-		if isBurst(pl.cfg.Scenario) && pl.cfg.Scenario != "burst-d2" {
+		if needsExpect(pl.cfg.Scenario) {
 			pl.cfg.Expect = expectFile[pl.cfg.Module]
-			if pl.cfg.Expect == "" {
-				continue // the serial child failed: reported below (expectRuns); nothing to compare a burst with
+			if pl.cfg.Expect == "" && pl.cfg.Scenario != "client" {
+				continue // the serial child failed: reported below (expectRuns); nothing to compare a burst / history with
 			}
 		}
 		runnable = append(runnable, pl)
@@ -1391,8 +1435,25 @@ func main() {
 		if r.rc == 66 && len(r.races) == 0 {
 			rep.Fail("race:unparsed:"+tag, "the race detector exited with its error code but no report could be parsed", tag, c, clip(lastLines(r.stderr, 40)))
 		}
+		for _, h := range r.out.Hangs {
+			rep.Fail("hang:"+h.Scenario+":"+h.Kind, h.What, tag, map[string]interface{}{"run": r.p.cfg, "history": h.History, "stuck_step": h.Index, "step_kind": h.Kind}, h.What)
+		}
 		for _, m := range r.out.Mismatches {
 			mc := map[string]interface{}{"run": r.p.cfg, "name": m.Name, "want": m.Want, "got": m.Got}
+			if m.Class != "" { // a client request that differs in what the client's configuration surface is about (client.go)
+				if m.Request != "" {
+					mc["request"] = m.Request
+				}
+				for _, class := range strings.Split(m.Class, "+") {
+					sig := "client-config:" + class + ":" + m.Scenario
+					if class == "header-leak" || class == "wire-differs" { // per kind of client (shared, built-shared, simple ...)
+						sig += ":" + strings.SplitN(m.Name, ":", 2)[0]
+					}
+					rep.Fail(sig, fmt.Sprintf("%s (%s, %s): %s; expected %q, got %q; %s", class, m.Scenario, m.What, m.Name, clipN(m.Want, 500), clipN(m.Got, 900), m.Request),
+						m.Scenario, mc, map[string]string{"want": m.Want, "got": m.Got})
+				}
+				continue
+			}
 			if strings.HasPrefix(m.What, "burst:") { // a request of a fresh-state burst answered otherwise than in the serial process
 				mc["request"] = m.Request
 				rep.Fail(m.What+":"+m.Scenario+":"+m.Name, fmt.Sprintf("%s (%s): a valid request whose serial answer is %q was answered %q; %s",
